@@ -164,9 +164,13 @@ class CFG(object):
             self._loops.pop()
             for n, l in outs:
                 self._edge(n, headn, 'back' if l == 'next' else l)
-            f = [(headn, 'done')]
+            # `for i in itertools.count(...)` never runs out: the loop is left by break / return / raise only
+            endless = isinstance(st.iter, ast.Call) and norm(st.iter.func) in ('itertools.count', 'count') and not st.orelse
+            f = [] if endless else [(headn, 'done')]
             outs2 = self._body(st.orelse, f) if st.orelse else f
             self._connect(outs2, after)
+            if not after.pred:
+                return []
             return [(after, 'next')]
         if isinstance(st, (ast.With, ast.AsyncWith)):
             w = self._new('with', st, st)
